@@ -43,6 +43,7 @@ from .parsing import parse, parse_observable
 from .patterns import (
     AndBooleanExpression, AndObservationExpression, BasicObjectPathComponent,
     BinaryConstant, BooleanConstant, EqualityComparisonExpression,
+    ExistsComparisonExpression,
     FloatConstant, FollowedByObservationExpression,
     GreaterThanComparisonExpression, GreaterThanEqualComparisonExpression,
     HashConstant, HexConstant, InComparisonExpression, IntegerConstant,
